@@ -497,6 +497,10 @@ type sub struct {
 	scale           rlwe.Scale
 	scTag           string
 	magTag          string
+	// extension (zero values = the behaviour of the original families)
+	prealloc int       // 0: nil/sentinel outputs, 1: big outputs allocated at the working precision, 2: partly allocated
+	logprecs []float64 // DecodePublic precisions to try instead of one drawn at random
+	stats    bool      // also decode through GetPrecisionStats
 }
 
 func (e *ckksEnv) sparse(logSlots int) bool { return logSlots < e.maxLogSlots }
@@ -754,9 +758,20 @@ func (e *ckksEnv) decodeCheck(pt *rlwe.Plaintext, s sub, truth cvec, M, sf float
 	if s.length < n && s.length > 0 {
 		decs = append(decs, dec{0, s.length})
 	}
-	decs = append(decs, dec{eng.Pick(e.rnd, 8.0, 20, 12.5, 45), n})
+	if s.logprecs == nil {
+		decs = append(decs, dec{eng.Pick(e.rnd, 8.0, 20, 12.5, 45), n})
+	} else {
+		for _, lp := range s.logprecs {
+			decs = append(decs, dec{lp, n})
+		}
+	}
+	statsDone := false
 	for _, d := range decs {
 		out := newOutput(s.outType, d.outLen)
+		if s.prealloc != 0 {
+			out = e.newOutputPre(s.outType, d.outLen, s.prealloc)
+			c.Count("ckks_decodes_into_preallocated_outputs", 1)
+		}
 		var err error
 		api := "ckks.Encoder.Decode"
 		call := func() { err = e.ecd.Decode(pt, out) }
@@ -800,6 +815,10 @@ func (e *ckksEnv) decodeCheck(pt *rlwe.Plaintext, s sub, truth cvec, M, sf float
 		}
 		if d.logprec != 0 {
 			e.gridCheck(got, d.logprec, s, cls, desc)
+		}
+		if s.stats && !statsDone && d.logprec == 0 && d.outLen == n {
+			statsDone = true
+			e.statsCheck(pt, s, truth, M, sf, cls, desc)
 		}
 	}
 }
